@@ -229,6 +229,12 @@ def axioms(ab, max_pairs=3000, max_triples=600):
             p2 = z3.RealVal(2) ** k if k >= 0 else 1 / (z3.RealVal(2) ** (-k))
             p2 = z3.simplify(p2)
             ax.append(z3.Implies(x > 0, (x >= p2) == (va >= k * _LOG2)))
+    if len(LG) <= 8:
+        for (a, va), (b, vb) in itertools.permutations(LG, 2):
+            xa, xb = A(a), A(b)
+            for k in range(-2, 5):  # log(xa) - log(xb) >= k log 2  <=>  xa >= 2^k xb
+                p2 = z3.simplify(z3.RealVal(2) ** k if k >= 0 else 1 / (z3.RealVal(2) ** (-k)))
+                ax.append(z3.Implies(z3.And(xa > 0, xb > 0), (xa >= p2 * xb) == (va - vb >= k * _LOG2)))
     for (a, va), (b, vb) in itertools.islice(itertools.combinations(LG, 2), max_pairs):
         xa, xb = A(a), A(b)
         ax.append(z3.Implies(z3.And(xa > 0, xb > 0, xa < xb), va < vb))
